@@ -18,6 +18,7 @@ func runC19(t *kernel.Tape, opt core.Opts) *core.Outcome {
 	g := GenOpts{Modes: []int{ModeDAG, ModeWorkflow, ModePregel}, MaxNodes: 6, Depth: 2, Cycles: t.PlanBool(50), State: 25,
 		Streams: true, Handlers: true, Yields: 1, Parallelism: t.PlanBool(40)}
 	p := Generate(t, g)
+	maybeAnyTypes(t, p)
 	in := M{"in": fmt.Sprintf("x%d", t.Plan(3))}
 	par := PStream
 	if t.PlanBool(40) {
@@ -93,6 +94,7 @@ func runC09(t *kernel.Tape, opt core.Opts) *core.Outcome {
 	g := GenOpts{Modes: []int{ModePregel, ModeDAG, ModeWorkflow}, MaxNodes: 6, Depth: 2, Cycles: true, State: 60,
 		Streams: t.PlanBool(60), Handlers: true, Yields: 2, Parallelism: t.PlanBool(40)}
 	p := Generate(t, g)
+	maybeAnyTypes(t, p)
 	nc := 2 + t.Plan(3)
 	calls := make([]*Call, nc)
 	models := make([]*ModelResult, nc)
